@@ -92,6 +92,8 @@ class Engine(Interp):
                     return ('mu', v[1], pos(v[2]))
                 if h == 'rawslot' and len(v) == 4:
                     return ('rawslot', v[1], pos(v[2]), v[3])
+                if h == 'rawbase' and len(v) == 4:
+                    return ('rawbase', v[1], pos(v[2]), pos(v[3]))
                 if h == 'pair' and len(v) == 4:
                     return ('pair', v[1], pos(v[2]), v[3])
                 if h == 'slice' and len(v) == 4:
@@ -588,7 +590,7 @@ class Engine(Interp):
         if not isinstance(v, tuple) or not v or depth > 6:
             return False
         h = v[0]
-        if h in ('sliceit', 'mu_val', 'pairs_val', 'slice_val', 'rawslot'):
+        if h in ('sliceit', 'mu_val', 'pairs_val', 'slice_val', 'rawslot', 'rawbase'):
             return True
         if h == 'map':
             return depth > 0
@@ -814,7 +816,7 @@ class Engine(Interp):
     def drop_value(self, st, v, eff, depth=0):
         """-> list of (kind, state)"""
         h = v[0]
-        if h in ('moved', 'int', 'bool', 'boolc', 'boolu', 'ref', 'slen', 'sliceit', 'closure', 'fn', 'rawslot',
+        if h in ('moved', 'int', 'bool', 'boolc', 'boolu', 'ref', 'slen', 'sliceit', 'closure', 'fn', 'rawslot', 'rawbase',
                  'oarr', 'oslice', 'opqit', 'mu_uninit', 'uninit_arr'):
             if h == 'closure':
                 return self.drop_fields(st, list(v[2]), eff, depth)
